@@ -43,6 +43,10 @@ const (
 	evOtherDSeq  = "lease-otherdseq"  // another deployment of the same tenant, same gseq/oseq
 	evOtherOSeq  = "lease-otheroseq"  // another order of the same group
 	evShutdown   = "shutdown"         // the parent service begins to shut down
+	// service-level configurations (Config.Service): the announcement of the order on the bus; "-dup" is a second
+	// announcement of the same order (for an order found open at start-up, the first one is already a duplicate)
+	evOrderCreated    = "order-created"
+	evOrderCreatedDup = "order-created-dup"
 )
 
 // scripted calls, in pipeline order
@@ -87,6 +91,13 @@ type Config struct {
 	SigReq      bool   // the group demands auditor-signed attributes (adds the attribute-signature call)
 	BidTimeout  bool   // Config.BidTimeout > 0: a virtual timer may fire after the bid was placed
 	Events      []string
+	// Service: the system is the real bidengine service (NewService: queryExistingOrders, service.run, the real
+	// attribute-signature service, catch-up handlers, de-duplication, drain) instead of one order monitor under a
+	// hand-built parent; the shutdown event cancels the service's context and "ended" = service.Done().
+	Service bool
+	// InitOrder (Service only): the chain lists the order as open when the provider starts (catch-up handler with
+	// existing-bid query, answered with BidQ); otherwise the order is only announced by an order-created event.
+	InitOrder bool
 	// MaxFaults: failures (error results) the environment may inject per execution, at any call it releases.
 	MaxFaults int
 	// Faults: call kinds that ALWAYS fail in this configuration (used to split the existing-bid query's
@@ -121,6 +132,8 @@ type call struct {
 	release chan string
 	// written by the calling goroutine
 	afterReserveOK bool // a Reserve had already returned successfully when this call began
+	liveCreates    int  // MsgCreateBid only: earlier MsgCreateBid broadcasts in flight or successful when this one began
+	closesBefore   int  // MsgCreateBid only: MsgCloseBid broadcasts begun before this one
 	price          sdk.Coin
 	result         string // "" while in flight
 	// written by the environment goroutine
@@ -140,6 +153,8 @@ type inst struct {
 
 	bus      pubsub.Bus
 	vo       *bidengine.VerifOrder
+	svc      bidengine.Service  // Config.Service
+	cancel   context.CancelFunc // Config.Service: the context NewService watches
 	orderID  mtypes.OrderID
 	provAddr sdk.AccAddress
 	other    sdk.AccAddress
@@ -162,9 +177,13 @@ type inst struct {
 	reserveReleased, reserveSettled bool
 	createReleased, createSettled   bool
 
+	// the provider's own open bid, found by the catch-up query, is "settled" like reservations and new bids
+	foundOpenReleased, foundOpenSettled bool
+
 	// waiter-owned
-	ended   bool
-	drained bool
+	ended      bool
+	drained    bool
+	callsAtEnd int // len(calls) when handling ended: clean-up calls begun later do not count
 
 	setupErr error
 
@@ -238,13 +257,25 @@ func (h *inst) body() {
 			cfg.BidTimeout = 3 * time.Millisecond // real clock in pass-through mode: let the timeout actually happen
 		}
 	}
-	vo, err := bidengine.VerifNewOrder(sess, &scriptedCluster{h: h}, h.bus, cfg, &scriptedAttr{h: h}, h.orderID, h.cfg.ExistingBid)
-	if err != nil {
-		h.setupErr = err
-		vs.Fatalf("c13: VerifNewOrder: %v", err)
-		return
+	if h.cfg.Service {
+		ctx, cancel := context.WithCancel(context.Background())
+		svc, err := bidengine.NewService(ctx, sess, &scriptedCluster{h: h}, h.bus, cfg)
+		if err != nil {
+			h.setupErr = err
+			cancel()
+			vs.Fatalf("c13: NewService: %v", err)
+			return
+		}
+		h.svc, h.cancel = svc, cancel
+	} else {
+		vo, err := bidengine.VerifNewOrder(sess, &scriptedCluster{h: h}, h.bus, cfg, &scriptedAttr{h: h}, h.orderID, h.cfg.ExistingBid)
+		if err != nil {
+			h.setupErr = err
+			vs.Fatalf("c13: VerifNewOrder: %v", err)
+			return
+		}
+		h.vo = vo
 	}
-	h.vo = vo
 	if h.free != nil {
 		h.free.start(h)
 		return
@@ -256,9 +287,21 @@ func (h *inst) body() {
 // waiter is the liveness expectation: the order monitor terminates and is handed to the parent's drain loop.
 func (h *inst) waiter() {
 	vs.Label("waiter")
+	if h.cfg.Service {
+		// the service reports done: every handler it started (catch-up ones included) must have finished its clean-up
+		vs.Recv(h.svc.Done())
+		h.lock()
+		h.ended, h.drained = true, true
+		h.callsAtEnd = len(h.calls)
+		vs.Note("calls-at-end", h.callsAtEnd)
+		h.unlock()
+		return
+	}
 	vs.Recv(h.vo.Done())
 	h.lock()
 	h.ended = true
+	h.callsAtEnd = len(h.calls)
+	vs.Note("calls-at-end", h.callsAtEnd)
 	h.unlock()
 	h.vo.WaitDrained()
 	h.lock()
@@ -284,7 +327,17 @@ func (h *inst) call(kind string, price sdk.Coin) string {
 	}
 	// shared harness memory (written by the goroutine that ran Reserve) read here: fold it
 	c.afterReserveOK = h.nReserveOK > 0
-	vs.Note("call", kind, c.seq, c.afterReserveOK)
+	if kind == kCreateBid {
+		for _, o := range h.calls {
+			switch {
+			case o.kind == kCreateBid && (o.result == "" || o.result == "ok"):
+				c.liveCreates++
+			case o.kind == kCloseBid:
+				c.closesBefore++
+			}
+		}
+	}
+	vs.Note("call", kind, c.seq, c.afterReserveOK, c.liveCreates, c.closesBefore)
 	h.calls = append(h.calls, c)
 	h.unlock()
 	v := vs.Recv(c.release)
@@ -338,6 +391,16 @@ func (q *scriptedQuery) Group(ctx context.Context, _ *dtypes.QueryGroupRequest, 
 		return nil, errInjected
 	}
 	return &dtypes.QueryGroupResponse{Group: q.h.group}, nil
+}
+
+// Orders is asked once, synchronously, by NewService (queryExistingOrders): the initial chain state is a parameter
+// of the configuration, the answer is immediate.
+func (q *scriptedQuery) Orders(_ context.Context, _ *mtypes.QueryOrdersRequest, _ ...grpc.CallOption) (*mtypes.QueryOrdersResponse, error) {
+	res := &mtypes.QueryOrdersResponse{}
+	if q.h.cfg.InitOrder {
+		res.Orders = mtypes.Orders{{OrderID: q.h.orderID, State: mtypes.OrderOpen, Spec: q.h.group.GroupSpec}}
+	}
+	return res, nil
 }
 
 func (q *scriptedQuery) Bid(ctx context.Context, req *mtypes.QueryBidRequest, _ ...grpc.CallOption) (*mtypes.QueryBidResponse, error) {
@@ -508,6 +571,9 @@ func (h *inst) release(c *call, v string) {
 			h.createReleased = true
 		}
 	}
+	if c.kind == kBidQuery && v == "found-open" {
+		h.foundOpenReleased = true
+	}
 	if exitVariant(c.kind, v) {
 		h.exitCaused = true
 	}
@@ -545,7 +611,13 @@ func (h *inst) inject(ev string) {
 		err = h.bus.Publish(leaseFor(oid, h.provAddr))
 	case evShutdown:
 		h.exitCaused = true
-		h.vo.ParentShutdown()
+		if h.cfg.Service {
+			vs.CallCancel(h.cancel) // NewService's `go s.lc.WatchContext(ctx)` turns it into a shutdown request
+		} else {
+			h.vo.ParentShutdown()
+		}
+	case evOrderCreated, evOrderCreatedDup:
+		err = h.bus.Publish(mtypes.NewEventOrderCreated(h.orderID))
 	default:
 		vs.Fatalf("c13: unknown event %q", ev)
 	}
@@ -564,6 +636,11 @@ func (h *inst) environment() {
 		// wait for my turn: passed (with early-injection budget 0) only when the system is quiescent,
 		// and only when there is something to do or the order monitor has terminated
 		vs.Op("env-turn", nil, vs.FoldNone, func() bool { return h.ended || h.hasMenu() }, nil)
+		if h.cfg.Service && !h.ended {
+			// service-level configurations are big-step: with early-injection budget 0 the environment acts only
+			// when the system is quiescent, also when it still holds the token (no free bursts of events)
+			vs.EnvQuiesce()
+		}
 		if h.ended {
 			vs.Note("ended")
 			return
@@ -571,6 +648,7 @@ func (h *inst) environment() {
 		if vs.Quiescent() && !h.exitCaused { // (folded into the history by Quiescent itself)
 			h.reserveSettled = h.reserveReleased
 			h.createSettled = h.createReleased
+			h.foundOpenSettled = h.foundOpenReleased
 		}
 		m := h.menu()
 		names := make([]string, len(m))
@@ -618,8 +696,16 @@ func (h *inst) check(r *vs.Result) (string, []string) {
 
 	// (1) at most one bid
 	creates := byKind[kCreateBid]
-	if len(creates) > 1 {
+	if !h.cfg.Service && len(creates) > 1 {
 		bad("at-most-one-bid:second-create-bid", "%d MsgCreateBid broadcasts were submitted for one order", len(creates))
+	}
+	for _, c := range creates {
+		// over the whole history of the service (catch-up handlers included): a MsgCreateBid while an earlier bid on
+		// the order is in flight or placed and has not been closed. (A new handler may bid again after the earlier
+		// broadcast failed or after the earlier bid was closed.)
+		if h.cfg.Service && c.liveCreates > c.closesBefore {
+			bad("at-most-one-bid:second-create-bid", "MsgCreateBid broadcast while %d earlier MsgCreateBid for the order was in flight or had succeeded and only %d MsgCloseBid had been submitted: two handlers are bidding on one order", c.liveCreates, c.closesBefore)
+		}
 	}
 	for _, c := range creates {
 		// (2) never above the order's maximum price
@@ -634,7 +720,13 @@ func (h *inst) check(r *vs.Result) (string, []string) {
 	// (1b) "at most one bid" across restarts: the existing-bid query answered with this provider's own bid on
 	// this order (in whatever state) - a MsgCreateBid in this run would be a second bid
 	for _, q := range byKind[kBidQuery] {
-		if strings.HasPrefix(q.result, "found-") && len(creates) > 0 {
+		n := 0
+		for _, c := range creates {
+			if q.result != "found-open" || c.closesBefore == 0 { // (an open bid that was closed first may be followed by a new one)
+				n++
+			}
+		}
+		if strings.HasPrefix(q.result, "found-") && n > 0 {
 			bad("second-bid:existing-bid-"+strings.TrimPrefix(q.result, "found-"), "MsgCreateBid broadcast although the existing-bid query had returned this provider's bid on the order (state %s)", strings.TrimPrefix(q.result, "found-"))
 		}
 	}
@@ -673,13 +765,17 @@ func (h *inst) check(r *vs.Result) (string, []string) {
 				reserved++
 			}
 		}
+		atEnd := map[*call]bool{} // calls begun before handling ended
+		for i, c := range h.calls {
+			atEnd[c] = i < h.callsAtEnd
+		}
 		for _, c := range byKind[kUnreserve] {
-			if c.afterReserveOK { // an Unreserve call that began after a Reserve had succeeded (whatever it returned)
+			if c.afterReserveOK && atEnd[c] { // an Unreserve call that began after a Reserve had succeeded (whatever it returned)
 				unreserved++
 			}
 		}
 		if reserved > unreserved {
-			if !h.reserveSettled && len(byKind[kUnreserve]) == 0 {
+			if !h.reserveSettled && len(byKind[kUnreserve]) == 0 && !h.cfg.Service {
 				bad("reservation-leaked:reserve-in-flight-at-exit", "the order monitor terminated (lease not won) with %d successful Reserve and no Unreserve: the Reserve call was still in flight (or its result not yet consumed) when the monitor decided to give up; the result was drained and dropped", reserved)
 			} else {
 				bad("reservation-leaked:completed-reserve-not-unreserved", "the order monitor terminated (lease not won) with %d successful Reserve but %d Unreserve after it", reserved, unreserved)
@@ -691,7 +787,22 @@ func (h *inst) check(r *vs.Result) (string, []string) {
 				placed++
 			}
 		}
-		if placed > 0 && len(byKind[kCloseBid]) == 0 {
+		closes := 0
+		for _, c := range byKind[kCloseBid] {
+			if atEnd[c] {
+				closes++
+			}
+		}
+		// bids of this provider that are open and known to a handler: placed by this run, or found open on chain
+		// by the catch-up query (and the answer consumed before anything ended the handler)
+		need := placed
+		if h.foundOpenSettled {
+			need++
+		}
+		if placed == 0 && closes < need {
+			bad("bid-not-closed:existing-open-bid-not-closed", "handling ended (lease not won) without a MsgCloseBid for the provider's own OPEN bid that the existing-bid query had returned to the handler")
+		}
+		if placed > 0 && closes < need {
 			closeRefused := false
 			for _, k := range h.refused {
 				closeRefused = closeRefused || k == kCloseBid
@@ -716,6 +827,9 @@ func (h *inst) check(r *vs.Result) (string, []string) {
 			}
 		}
 		what := "order-monitor-never-terminates"
+		if h.cfg.Service {
+			what = "service-never-done"
+		}
 		if h.ended && !h.drained {
 			what = "order-never-drained"
 		}
